@@ -86,6 +86,7 @@ fn args(_tier: Tier) -> Vec<RE> {
     v
 }
 
+
 #[derive(Default)]
 struct World {
     chooser: Option<SharedChooser>,
@@ -449,6 +450,126 @@ fn run_script(si: usize, script: &[bool], acc: &mut Acc) {
     }
 }
 
+/// see the comment at the call site
+fn nan_leg() -> (Acc, u64) {
+    fn bits_of(v: &Value) -> Value {
+        match v {
+            Value::Float(f) => Value::Int(f.to_bits() as i128),
+            Value::Vec(items) => Value::Vec(items.iter().map(bits_of).collect()),
+            other => other.clone(),
+        }
+    }
+    let arg_texts = ["q1", "q2", "q3", "[q1]", "[q3]", "[q1, q3]", "[q3, q1]", "z1", "z2"];
+    let facts = Value::Map(
+        [("q1", 0x7ff8_0000_0000_0000u64), ("q2", 0x7ff8_0000_0000_0001), ("q3", 0xfff8_0000_0000_0000), ("z1", 0), ("z2", 0x8000_0000_0000_0000)]
+            .into_iter()
+            .map(|(k, b)| (k.to_string(), Value::Float(f64::from_bits(b))))
+            .collect(),
+    );
+    let alphabet: Vec<(usize, usize)> = (0..2usize).flat_map(|f| (0..arg_texts.len()).map(move |a| (f, a))).collect();
+    let mut seqs: Vec<Vec<(usize, usize)>> = Vec::new();
+    let mut frontier: Vec<Vec<(usize, usize)>> = vec![vec![]];
+    for len in 0..3 {
+        let mut next = Vec::new();
+        for s in &frontier {
+            for c in &alphabet {
+                if len == 2 && c.0 != s[0].0 {
+                    continue;
+                }
+                let mut t = s.clone();
+                t.push(*c);
+                next.push(t);
+            }
+        }
+        seqs.extend(next.iter().cloned());
+        frontier = next;
+    }
+    let cases: Vec<(Vec<(usize, usize)>, Vec<usize>)> = seqs.iter().flat_map(|s| splits(s.len()).into_iter().map(move |sp| (s.clone(), sp))).collect();
+    let n = cases.len() as u64;
+    let acc = cases
+        .par_iter()
+        .map(|(calls, split)| {
+            let mut acc = Acc::new();
+            acc.count("executions", 1);
+            let log: Arc<Mutex<Vec<(String, Value)>>> = Arc::new(Mutex::new(Vec::new()));
+            let l2 = log.clone();
+            let h: Handler = Arc::new(move |name, p| {
+                let b = bits_of(&p);
+                l2.lock().unwrap().push((name.to_string(), b.clone()));
+                (Ok(b), 0)
+            });
+            let names = ["b1", "b2"];
+            let mut b = ruleset();
+            let mut k = 0;
+            let mut texts = Vec::new();
+            for (ri, len) in split.iter().enumerate() {
+                let items: Vec<String> = calls[k..k + len].iter().map(|(f, a)| format!("{}({})", names[*f], arg_texts[*a])).collect();
+                k += len;
+                let text = format!("[{}]", items.join(", "));
+                b = match Expr::parse(&text).map_err(|e| e.to_string()).and_then(|e| b.with_rule(Rule::new(format!("r{ri}"), BTreeMap::new(), e)).map_err(|e| e.to_string())) {
+                    Ok(b) => b,
+                    Err(m) => {
+                        acc.machinery(format!("nan leg: {m}"));
+                        return acc;
+                    }
+                };
+                texts.push(text);
+            }
+            let rs = match b.with_function(probe("b1", true, &h)).and_then(|b| b.with_function(probe("b2", true, &h))) {
+                Ok(b) => b.build(),
+                Err(e) => {
+                    acc.machinery(format!("nan leg: {e}"));
+                    return acc;
+                }
+            };
+            let out = catch(|| block_on(rs.evaluate_value(&facts)));
+            let got: Vec<Value> = match out {
+                Ok(Ok(Ok(o))) => o.into_iter().flat_map(|x| match x.value {
+                    Ok(Value::Vec(items)) => items,
+                    other => vec![Value::String(format!("{other:?}"))],
+                })
+                .collect(),
+                other => vec![Value::String(format!("{:?}", other.map(|r| r.map(|x| x.map(|o| o.len()).map_err(|e| e.to_string()))))); calls.len().max(1)],
+            };
+            // expected: the bits of each call's own argument
+            let arg_value = |a: usize| -> Value {
+                let lookup = |n: &str| match &facts {
+                    Value::Map(m) => m.get(n).cloned().unwrap_or(Value::None),
+                    _ => Value::None,
+                };
+                let t = arg_texts[a];
+                if let Some(inner) = t.strip_prefix('[') {
+                    Value::Vec(inner.trim_end_matches(']').split(", ").map(lookup).collect())
+                } else {
+                    lookup(t)
+                }
+            };
+            let want: Vec<Value> = calls.iter().map(|(_, a)| bits_of(&arg_value(*a))).collect();
+            let distinct: std::collections::BTreeSet<(usize, String)> = calls.iter().map(|(f, a)| (*f, format!("{:?}", bits_of(&arg_value(*a))))).collect();
+            let invoked = log.lock().unwrap().len();
+            let label = texts.join(" ; ");
+            if got != want {
+                acc.violation(Violation {
+                    sig: format!("nan-argument/result/{}", calls.len()),
+                    what: format!("rules {label} with q1/q2/q3 = NaNs of different sign / payload: results {got:?}, each call's own argument gives {want:?}"),
+                    case: json!({"kind": "nan-arguments"}),
+                    size: label.len(),
+                });
+            } else if invoked != distinct.len() {
+                acc.violation(Violation {
+                    sig: format!("nan-argument/invocations/{}", calls.len()),
+                    what: format!("rules {label}: {invoked} invocations for {} distinct (function, argument bits) pairs", distinct.len()),
+                    case: json!({"kind": "nan-arguments"}),
+                    size: label.len(),
+                });
+            }
+            acc.outcome(format!("nan-arguments:invocations={invoked}"));
+            acc
+        })
+        .reduce(Acc::new, |a, b| a.merge(b));
+    (acc, n)
+}
+
 /// every `cacheable()` answer script up to the tier's length, over the rule shapes; with
 /// `only_panics` the violations other than panics are dropped (used by C01)
 pub fn script_leg(tier: Tier, only_panics: bool) -> (Acc, usize) {
@@ -581,6 +702,18 @@ pub fn run(tier: Tier) -> i32 {
         rep.absorb(acc);
         stats.add(&st);
     }
+    // NaN arguments that differ in sign / payload are different arguments (a function can tell them
+    // apart).  The reference value type of this harness deliberately ignores NaN payloads, so this
+    // leg has its own oracle: two pure cacheable functions return the bit pattern(s) of their
+    // argument; every sequence of <= 3 calls over three NaNs, lists of them and f0.0 / f-0.0, all
+    // splits over rules: every call yields the bits of its own argument, and each function is
+    // invoked once per distinct bit pattern
+    {
+        let (acc, n) = nan_leg();
+        n_cases += n;
+        rep.bound("nan_argument_leg", format!("{n} histories over three NaNs differing in sign / payload, lists of them, f0.0 and f-0.0"));
+        rep.absorb(acc);
+    }
     // functions that return none: cached like any other result, counted by the invocation log
     {
         let fs = [0usize, 5, 6];
@@ -710,6 +843,19 @@ pub fn run(tier: Tier) -> i32 {
 }
 
 pub fn replay(case: &serde_json::Value) -> i32 {
+    if case.get("kind").and_then(|k| k.as_str()) == Some("nan-arguments") {
+        let (acc, n) = nan_leg();
+        println!("re-ran the {n} NaN-argument histories");
+        return if acc.violations.is_empty() {
+            println!("verdict: holds");
+            0
+        } else {
+            for v in acc.violations.values() {
+                println!("verdict: VIOLATED — {}", v.what);
+            }
+            1
+        };
+    }
     if case.get("kind").and_then(|k| k.as_str()) == Some("cacheable-script") {
         let si = case.get("shape").and_then(|x| x.as_u64()).unwrap_or(0) as usize;
         let script: Vec<bool> = case.get("script").and_then(|a| a.as_array()).map(|a| a.iter().filter_map(|b| b.as_bool()).collect()).unwrap_or_default();
